@@ -337,6 +337,20 @@ def program(draw, profile=None):
     inits = [[p, 0] for p in NUM] + [[STR[0], ""], [FLG[0], False]]
     prog = {"period": draw(st.sampled_from(prof["periods"])), "ticks": draw(st.integers(*prof["ticks"])),
             "inits": inits, "framers": framers}
+    if prof.get("inject"):
+        # external writes: at the start of a drawn tick a NEW field is added to a share that a marker condition
+        # watches (what a behavior or the host program does with share.update(field=value))
+        watched = []
+        for fr in framers:
+            for f in fr["frames"]:
+                for a in f["acts"]:
+                    for n in a.get("needs") or []:
+                        if n["kind"] in ("updated", "changed") and n["share"] not in watched:
+                            watched.append(n["share"])
+        if watched and draw(st.booleans()):
+            prog["inject"] = [[draw(st.integers(1, prog["ticks"])), draw(st.sampled_from(watched)),
+                               draw(st.sampled_from(["xa", "xb"])), draw(st.integers(1, 3))]
+                              for _ in range(draw(st.integers(1, 2)))]
     return prog
 
 
